@@ -19,8 +19,8 @@ avars == <<l, c, k, last, u, prev, cur, bad>>
 
 TInit == l = 1 /\ c = [kind |-> "none"] /\ k = 0 /\ last = 0 /\ u = 0 /\ prev = <<>> /\ cur = <<>> /\ bad = ""
 
-\* tracked exactly only where the integers stay small: controlled (saturated / mirrored) runs
-Tracked(cc) == cc.kind = "momentum" /\ cc.saturated /\ cc.decay4 \in {2, 4}
+\* tracked exactly only where the integers stay small: runs whose mid-price path the harness imposes
+Tracked(cc) == cc.kind = "momentum" /\ cc.controlled /\ cc.decay4 \in {2, 4}
 
 Pow2(n) == IF n = 0 THEN 1 ELSE 2 ^ n
 
@@ -57,7 +57,7 @@ Step ==
             /\ bad' = "" /\ l' = l + 1
        [] e.op = "update" ->
             \* k < 0: the mid-price left the range in which the signal is tracked exactly (rest of the run untracked)
-            LET tr == Tracked(c) /\ k >= 0 /\ BigSmall(e.mid2)
+            LET tr == Tracked(c) /\ k >= 0 /\ BigSmall(e.mid2) /\ (c.decay4 = 4 \/ k <= 20)   \* 2^k scaling stays within 32 bits
                 m  == IF tr THEN BigVal(e.mid2) ELSE 0
                 nu == IF tr THEN NextU(c, k, last, u, m) ELSE 0
                 sg == IF tr THEN Sgn(nu) ELSE 2
